@@ -122,10 +122,55 @@ Definition randomize_fn (s : Z) (v : value) : res Z :=
   | _ => Ok (reseed s (value_bytes v))
   end.
 
+(* ---------- several draws combined in one expression ----------
+   Every value handed out by RND is a value of its own (seed/2^24 of the seed at that draw), so an expression
+   that combines several draws sees the successive sequence values, whatever is still pending on the
+   evaluation stack.  Values are represented by their seeds (exact scaling): differences of two values are
+   again exactly representable Singles, comparisons are comparisons of the seeds. *)
+Inductive xform :=
+| XSub                    (* D1 - D2 *)
+| XCmp (rel : Z)          (* D1 rel D2 : 0 "=", 1 "<", 2 ">", 3 "<=", 4 ">=", 5 "<>" *)
+| XCmpSub (rel : Z).      (* D1 rel (D2 - D3) *)
+
+Definition rel_holds (rel a b : Z) : bool :=
+  if rel =? 0 then a =? b else if rel =? 1 then a <? b else if rel =? 2 then b <? a
+  else if rel =? 3 then a <=? b else if rel =? 4 then b <=? a else negb (a =? b).
+
+(* the Single (a - b) / 2^24 for 0 <= a, b < 2^24: exact, sign in bit 7 of byte 2 *)
+Definition diff_bytes (a b : Z) : list Z :=
+  if a =? b then [0; 0; 0; 0] else
+  let r := rnd_bytes (Z.abs (a - b)) in
+  if a <? b then [sng_byte r 0; sng_byte r 1; sng_byte r 2 + 128; sng_byte r 3] else r.
+
+(* the draws of one expression, left to right: the seed after each draw; an error stops the evaluation with
+   the seed reached so far *)
+Fixpoint draws (s : Z) (args : list (option value)) : Z * res (list Z) :=
+  match args with
+  | [] => (s, Ok [])
+  | a :: r =>
+      match rnd_fn s a with
+      | Ok (s1, _) => let '(s2, l) := draws s1 r in (s2, rmap (cons s1) l)
+      | Err e => (s, Err e)
+      | Host x => (s, Host x)
+      | OutOfFuel => (s, OutOfFuel)
+      end
+  end.
+
+Definition basic_bool (b : bool) : Z := if b then -1 else 0.
+
+Definition expr_result (f : xform) (vals : list Z) : res (list Z) :=
+  match f, vals with
+  | XSub, [a; b] => Ok (diff_bytes a b)
+  | XCmp rel, [a; b] => Ok [basic_bool (rel_holds rel a b)]
+  | XCmpSub rel, [a; b; c] => Ok [basic_bool (rel_holds rel a (b - c))]
+  | _, _ => Host host_Other
+  end.
+
 Inductive op :=
 | ORnd (arg : option value)     (* RND, RND(x) *)
 | ORandomize (v : value)        (* RANDOMIZE x *)
-| OClear.                       (* CLEAR / RUN / NEW: Randomiser.clear() *)
+| OClear                        (* CLEAR / RUN / NEW: Randomiser.clear() *)
+| OExpr (f : xform) (args : list (option value)).   (* an expression combining several draws *)
 
 (* one operation: new seed (unchanged on error) and what the caller observes *)
 Definition step (s : Z) (o : op) : Z * res (list Z) :=
@@ -145,6 +190,7 @@ Definition step (s : Z) (o : op) : Z * res (list Z) :=
       | OutOfFuel => (s, OutOfFuel)
       end
   | OClear => (rnd_clear s, Ok [])
+  | OExpr f args => let '(s', r) := draws s args in (s', bind r (expr_result f))
   end.
 
 (* final seed of a history *)
@@ -201,6 +247,19 @@ Fixpoint vtrace (s : Z) (st : list value) (ops : list vop) : list Z :=
   | [] => []
   | o :: r => let '((s', st'), out) := vstep s st o in
               enc_res out ++ [s'] ++ var_obs st' o ++ vtrace s' st' r
+  end.
+
+(* the values handed out so far (bytes of every successful RND / RND(x) call, in order): what a caller that kept
+   them all still holds at the end of the history *)
+Fixpoint vheld (s : Z) (st : list value) (ops : list vop) : list Z :=
+  match ops with
+  | [] => []
+  | o :: r =>
+      let '((s', st'), out) := vstep s st o in
+      match vop_op st o, out with
+      | ORnd _, Ok b => b ++ vheld s' st' r
+      | _, _ => vheld s' st' r
+      end
   end.
 
 (* ---------- harness helpers (correspondence sweeps) ---------- *)
